@@ -2,7 +2,7 @@
 over a finite abstraction that is exhaustive for the comparisons the rules make."""
 import re, importlib.util, itertools, os
 from .. import dex as D, world as W, mir as M, authmodel as A
-from . import tables as T
+from . import tables as T, util as U
 
 LEVEL = "translation_validation"
 EXPLANATION = (
@@ -369,8 +369,12 @@ def run(ctx):
         ctx.missing("C08.third-party-keys", "C08.third-party-keys:public_keys", "RoomThirdPartyInviteEvent::public_keys not found")
     else:
         fk = cands[0]
-        kp = [p for p in D.Dex(w.lookup, adt_discr=w.adt_discr, unroll=1, inline=helper_inline).paths(fk, [D.sym("self")]) if p.kind == "ret" and D.show(p.ret).startswith("Result::Ok(")]
-        partial = [D.show(p.ret)[:200] for p in kp if not (re.search(r"\.public_key\b", D.show(p.ret)) and re.search(r"\.public_keys\b", D.show(p.ret)))]
+        kp = [p for p in D.Dex(w.lookup, adt_discr=w.adt_discr, unroll=1, inline=helper_inline,
+                               effects=lambda n: n.rsplit("::", 1)[-1] in ("extend", "insert", "push", "append")).paths(fk, [D.sym("self")])
+              if p.kind == "ret" and D.show(p.ret).startswith("Result::Ok(")]
+        # the returned set is built in one expression (chain + collect) or filled step by step (extend / insert): both sources must feed it
+        text = lambda p: D.show(p.ret) + " " + " ".join(" ".join(U.shows(e[1])) for e in p.effects)
+        partial = [text(p)[:200] for p in kp if not (re.search(r"\.public_key\b", text(p)) and re.search(r"\.public_keys\b", text(p)))]
         ctx.check(bool(kp) and not partial, "C08.third-party-keys", "C08.third-party-keys:public_keys", w.where(fk),
                   bad_msg=f"a successful path returns only a part of the keys: {partial[:1]} - a signature made with the other key no longer matches, so a valid third-party "
                           f"invite is rejected")
